@@ -64,7 +64,9 @@ Pool == <<
   (* 17 *) <<PrefD(<<c_k, c_i>>, TRUE, 1024, <<>>)>>,
   (* 18 *) <<PrefD(<<c_q>>, FALSE, 1, <<n_k>>)>>,
   (* 19 *) <<UnitD(<<c_t>>, 7, <<<<c_l, c_e, c_n>>>>)>>,
-  (* 20 *) <<SubstD(<<c_z, c_e, c_r, c_o>>, <<Prop(<<c_p, 51>>, <<c_p, 51>>, 0, <<n_m>>, <<c_c, 51>>, 1, <<>>)>>)>>
+  (* 20 *) <<SubstD(<<c_z, c_e, c_r, c_o>>, <<Prop(<<c_p, 51>>, <<c_p, 51>>, 0, <<n_m>>, <<c_c, 51>>, 1, <<>>)>>)>>,
+  (* 21 *) <<UnitD(<<c_a>>, 2, <<n_meter>>)>>,
+  (* 22 *) <<UnitD(<<c_b>>, 1, <<<<c_b>>>>)>>
 >>
 
 RECURSIVE SubsetsUpTo(_, _)
@@ -82,7 +84,7 @@ Splits(q) ==
   LET n == Len(q) IN
   {<<q>>}
   \cup (IF MaxFiles >= 2 THEN {<<SubSeq(q, 1, i), SubSeq(q, i + 1, n)>> : i \in 1..(n - 1)} ELSE {})
-  \cup (IF MaxFiles >= 3 THEN UNION {{<<SubSeq(q, 1, i), SubSeq(q, i + 1, j), SubSeq(q, j + 1, n)>> :
+  \cup (IF MaxFiles >= 3 /\ n <= 4 THEN UNION {{<<SubSeq(q, 1, i), SubSeq(q, i + 1, j), SubSeq(q, j + 1, n)>> :
                                           j \in (i + 1)..(n - 1)} : i \in 1..(n - 2)}
         ELSE {})
 
